@@ -388,6 +388,17 @@ type te2eRes struct {
 }
 
 func te2eTransfer(px *te2eProxy, n, ch int, pat string, oneway bool, seed int64, eofWait time.Duration) te2eRes {
+	return te2eTransferT(px, n, ch, pat, oneway, seed, eofWait, 4*time.Second)
+}
+
+func te2eDebug(format string, a ...any) {
+	if os.Getenv("C01_DEBUG") != "" {
+		fmt.Fprintf(os.Stderr, format+"\n", a...)
+	}
+}
+
+// ioWait bounds the wait for the backend's tag and for the echo (one deadline on the user's socket)
+func te2eTransferT(px *te2eProxy, n, ch int, pat string, oneway bool, seed int64, eofWait, ioWait time.Duration) te2eRes {
 	res := te2eRes{pp: "na"}
 	for len(px.backend.newC) > 0 { // leftovers of an earlier failed op
 		<-px.backend.newC
@@ -413,7 +424,7 @@ func te2eTransfer(px *te2eProxy, n, ch int, pat string, oneway bool, seed int64,
 		go func() { werr <- stkWriteChunked(c, payload, ch, seed) }()
 	}
 	tagLen := 1 + len(px.backend.tag)
-	_ = c.SetReadDeadline(time.Now().Add(8 * time.Second))
+	_ = c.SetReadDeadline(time.Now().Add(ioWait))
 	tagBuf := make([]byte, tagLen)
 	if _, err := readFull(br, tagBuf); err != nil {
 		res.err = "notag"
@@ -427,7 +438,7 @@ func te2eTransfer(px *te2eProxy, n, ch int, pat string, oneway bool, seed int64,
 	var bc *stkBConn
 	select {
 	case bc = <-px.backend.newC:
-	case <-time.After(3 * time.Second):
+	case <-time.After(2 * time.Second):
 		// a reply arrived but this proxy's backend saw no connection: name the tag that did arrive
 		res.err = "nobackend:tag=" + hx(string(tagBuf[1:]))
 		return res
@@ -489,7 +500,7 @@ func te2eXfer(kv map[string]string) string {
 	if r.err != "" || (r.tag && !(r.up && r.down && r.eof)) {
 		// no tagged reply at all, or a timeout inside the transfer (loaded machine?): once more before
 		// reporting it — a systematic fault shows again; a wrong tag (cross-wiring) is never retried
-		r = te2eTransfer(px, n, atoi(kv["ch"]), kv["pat"], oneway, seed, 4*time.Second)
+		r = te2eTransferT(px, n, atoi(kv["ch"]), kv["pat"], oneway, seed, 4*time.Second, 8*time.Second)
 	}
 	if r.err != "" {
 		return "err=" + r.err
@@ -819,7 +830,38 @@ func te2eSlow(kv map[string]string) string {
 	return r
 }
 
+// Time spent in ops that FAILED (a wait that ran into its bound). On a tree where something is systematically broken
+// every op may run into its bounds; once a minute has gone that way the remaining ops are not executed any more, so
+// that one execution of an op file stays bounded (the runner re-executes and shrinks op files).
+var te2eFailSpent time.Duration
+
+func te2eFailed(res string) bool {
+	for _, m := range []string{"err=", "up=0", "down=0", "tag=0", "eof=0", "pp=0", "eq=0", "noproxy", "?"} {
+		if strings.Contains(res, m) {
+			return true
+		}
+	}
+	for _, k := range []string{"xw=", "bad="} {
+		if i := strings.Index(res, k); i >= 0 && !strings.HasPrefix(res[i+len(k):], "0") {
+			return true
+		}
+	}
+	return false
+}
+
 func te2eExec(tok []string) string {
+	if te2eFailSpent > 60*time.Second && tok[0] != "reset" {
+		return "err=budget"
+	}
+	t0 := time.Now()
+	res := te2eExec1(tok)
+	if te2eFailed(res) {
+		te2eFailSpent += time.Since(t0)
+	}
+	return res
+}
+
+func te2eExec1(tok []string) string {
 	kv := stkKV(tok)
 	switch tok[0] {
 	case "reset":
@@ -834,6 +876,10 @@ func te2eExec(tok []string) string {
 		return te2eSmallBW(kv)
 	case "slow":
 		return te2eSlow(kv)
+	case "life":
+		return te2eLife(kv)
+	case "sched":
+		return te2eSched(kv)
 	}
 	return "badop"
 }
@@ -867,12 +913,28 @@ func te2eGen(rng *rand.Rand, n int, emit func(string)) {
 	// a slow, pausing reader behind every kind of control transport; the long pause once, on the datagram-based transport,
 	// at the moment the writing side is done (everything still outstanding sits in the buffers along the tunnel and the
 	// writing side has closed long before the reader comes back)
-	emit(fmt.Sprintf("slow cfg=001q enc=0 comp=0 lim=none dir=down n=%d after=fin pace=2 pause=3500 seed=%d", 10<<20, rng.Intn(100000)))
+	// (a reader slow enough — 32 KiB per 8 ms — that the final hop's socket buffers stay full and the tail really waits inside
+	// the tunnel's stream: with a faster reader everything outstanding often fits the kernel buffers of the last hop)
+	emit(fmt.Sprintf("slow cfg=001q enc=0 comp=0 lim=none dir=down n=%d after=fin pace=8 pause=3500 seed=%d", 10<<20, rng.Intn(100000)))
 	emit(fmt.Sprintf("slow cfg=001q enc=1 comp=0 lim=none dir=up n=%d after=%d pace=0 pause=200 seed=%d", 2<<20, 65536, rng.Intn(100000)))
 	emit(fmt.Sprintf("slow cfg=111 enc=0 comp=1 lim=none dir=down n=%d after=fin pace=1 pause=300 seed=%d", 4<<20, rng.Intn(100000)))
 	emit(fmt.Sprintf("slow cfg=101w enc=1 comp=1 lim=cli dir=up n=%d after=%d pace=0 pause=300 seed=%d", 1<<20, 0, rng.Intn(100000)))
+	// proxy life cycle on the vhost muxers: everything up, then one of the routeByHTTPUser siblings closed, …
+	emit(fmt.Sprintf("life cfg=111 steps=1fff/1ffd/1ff9/1fff/0 seed=%d", rng.Intn(100000)))
+	emit(te2eGenLife(rng, "001"))
+	// back-to-back, then overlapping connections on compressed proxies
+	emit(fmt.Sprintf("sched cfg=%s g=tcp.0.1.none.0,tcp.0.1.none.0+tcp.1.1.none.1+stcp.0.1.none.0,tcp.1.1.cli.0+https.0.1.none.0,tcp.0.1.none.0+tcp.0.1.cli.1+stcp.1.1.none.0+tcpmux.0.1.none.0,https.1.1.none.0+tcp.1.1.none.0 n=3000 seed=%d",
+		pick(rng, cfgs), rng.Intn(100000)))
 	for i := 0; i < n; i++ {
 		cfg := pick(rng, cfgs)
+		if rng.Intn(14) == 0 {
+			emit(te2eGenLife(rng, pick(rng, []string{"111", "001"})))
+			continue
+		}
+		if rng.Intn(8) == 0 {
+			emit(te2eGenSched(rng, cfg))
+			continue
+		}
 		if rng.Intn(12) == 0 {
 			cfg = pick(rng, []string{"001q", "101w", "001q", cfg})
 		}
